@@ -1,5 +1,99 @@
-"""E9: checker self-test on scratch variants (thorough tier). Filled in later."""
+"""E9: self-test of the checkers on scratch variants (thorough tier).
+
+Variants live under /verif/seeded/<name>/ :
+  patch.diff (+ optional ported.diff = the same change re-based on the current tree), meta.json with
+  "kind": "breaking" (default) or "twin" (behaviour-preserving refactoring) and "expect": list of
+  property ids whose check must report it (breaking) / must all stay silent (twin).
+For property P the thorough tier applies every variant that concerns P to a scratch copy of the
+CURRENT /repo tree (mkdtemp outside /repo and /verif, removed at once), runs P's rules on the copy
+in-process and compares with the label.  A variant that no longer applies is 'skipped'.  A verdict
+different from the label means the CHECKER is broken (exit 2), never a violation of the property.
+"""
+from __future__ import annotations
+
+import concurrent.futures
+import json
+import os
+import shutil
+import subprocess
+import tempfile
+
+from .core import AnalysisError
+from .report import VERIF
+
+SEEDED = os.path.join(VERIF, 'seeded')
 
 
-def run_for(pid, quiet=False):
-    return {'variants': 0, 'note': 'variant corpus not built yet', 'broken': []}
+def _variants(pid):
+    out = []
+    if not os.path.isdir(SEEDED):
+        return out
+    for name in sorted(os.listdir(SEEDED)):
+        mp = os.path.join(SEEDED, name, 'meta.json')
+        if not os.path.exists(mp):
+            continue
+        meta = json.load(open(mp, encoding='utf-8'))
+        kind = meta.get('kind', 'breaking')
+        expect = meta.get('expect', [])
+        if kind == 'breaking' and pid in expect:
+            out.append((name, kind))
+        elif kind == 'twin' and (pid in meta.get('touches', []) or pid == meta.get('property')):
+            out.append((name, kind))
+    return out
+
+
+def _one(args):
+    pid, name, kind, repo = args
+    d = os.path.join(SEEDED, name)
+    patch = os.path.join(d, 'ported.diff')
+    if not os.path.exists(patch):
+        patch = os.path.join(d, 'patch.diff')
+    tmp = tempfile.mkdtemp(prefix='malsa_variant_')
+    try:
+        shutil.copytree(os.path.join(repo, 'maltoolbox'), os.path.join(tmp, 'maltoolbox'),
+                        ignore=shutil.ignore_patterns('__pycache__'))
+        r = subprocess.run(['patch', '-p1', '-s', '-f', '-d', tmp, '-i', patch], capture_output=True, text=True)
+        if r.returncode != 0:
+            return name, kind, 'skipped', 'patch does not apply to the current tree'
+        # separate process: the rule caches are per-process and keyed by object identity
+        code = ('import sys, json; sys.path.insert(0, %r); from malsa.runner import verdicts; '
+                'v, mine = verdicts(%r, %r); print(json.dumps([i.key for i in v]))' % (VERIF, pid, tmp))
+        r = subprocess.run(['/venv/bin/python', '-c', code], capture_output=True, text=True, cwd=VERIF)
+        if r.returncode != 0:
+            return name, kind, 'error', (r.stdout + r.stderr)[-300:]
+        keys = json.loads(r.stdout.strip().splitlines()[-1])
+        if kind == 'breaking':
+            return name, kind, ('ok' if keys else 'MISSED'), '; '.join(keys[:3])
+        return name, kind, ('ok' if not keys else 'FALSE-ALARM'), '; '.join(keys[:3])
+    finally:
+        shutil.rmtree(tmp, ignore_errors=True)
+
+
+def run_for(pid, quiet=False, repo=None):
+    from .core import REPO
+    repo = repo or REPO
+    vs = _variants(pid)
+    res = {'variants': len(vs), 'applied': 0, 'skipped': 0, 'breaking_caught': 0, 'twins_silent': 0,
+           'broken': [], 'details': []}
+    if not vs:
+        res['note'] = 'no variant concerns this property'
+        return res
+    with concurrent.futures.ThreadPoolExecutor(max_workers=16) as ex:
+        for name, kind, status, info in ex.map(_one, [(pid, n, k, repo) for n, k in vs]):
+            res['details'].append({'variant': name, 'kind': kind, 'status': status, 'info': info[:200]})
+            if status == 'skipped':
+                res['skipped'] += 1
+                continue
+            res['applied'] += 1
+            if status == 'ok':
+                if kind == 'breaking':
+                    res['breaking_caught'] += 1
+                else:
+                    res['twins_silent'] += 1
+            else:
+                res['broken'].append(f'{name}: {status} {info[:120]}')
+    if not quiet:
+        print(f'  self-test {pid}: {res["applied"]} variants applied ({res["skipped"]} skipped): '
+              f'{res["breaking_caught"]} breaking caught, {res["twins_silent"]} twins silent, '
+              f'{len(res["broken"])} mislabelled')
+    return res
